@@ -186,7 +186,8 @@ def search(ctx):
                             why = "serialized form is neither bytes nor ASCII text"
                     if why is None and not (isinstance(flags, int) and 0 <= flags < 65536):
                         why = "flags outside 16 bits"
-                    wire = data if isinstance(data, bytes) else str(data).encode("ascii")
+                    # what a server hands back is always a plain bytes object, whatever subclass was handed in
+                    wire = bytes(data) if isinstance(data, bytes) else str(data).encode("ascii")
                     if why is None:
                         back = s.deserialize(b"k", wire, flags)
                         if not same(back, v):
@@ -194,7 +195,7 @@ def search(ctx):
                     if why is None and cinfo:
                         comp, ml = cinfo
                         idata, iflags = ps.serialize(b"k", v)
-                        iwire = idata if isinstance(idata, bytes) else str(idata).encode("ascii")
+                        iwire = bytes(idata) if isinstance(idata, bytes) else str(idata).encode("ascii")
                         flagged = bool(flags & serde.FLAG_COMPRESSED)
                         if len(wire) > len(iwire):
                             why = "stored form is larger than the uncompressed one"
